@@ -27,13 +27,16 @@ type connCase struct {
 	End     string         `json:"end"`
 	Kind    string         `json:"kind"`
 	Note    string         `json:"note,omitempty"`
+	// LingerMs: the client waits until the server has been quiet for this long before it ends
+	// the connection (an interactive client reads the replies; 0 = sends and leaves at once)
+	LingerMs int `json:"linger_ms,omitempty"`
 	// Poison: one odd connection served first; the measured connections are the ordinary
 	// ones after it (state an earlier client left behind must not make later ones leak)
 	Poison *connCase `json:"poison,omitempty"`
 }
 
 func (c connCase) wire() svc.WireScript {
-	w := svc.WireScript{Service: c.Service, UDP: c.UDP, End: c.End, SSH: c.SSH}
+	w := svc.WireScript{Service: c.Service, UDP: c.UDP, End: c.End, SSH: c.SSH, LingerMs: c.LingerMs}
 	var stream []byte
 	var units [][]byte
 	for _, u := range c.Units {
@@ -391,6 +394,7 @@ func genConn(t *rapid.T) connCase {
 	}
 	c.Seg = rapid.SampledFrom([]string{"units", "single"}).Draw(t, "seg")
 	c.End = rapid.SampledFrom([]string{"close", "close", "reset"}).Draw(t, "end")
+	c.LingerMs = rapid.SampledFrom([]int{0, 0, 0, 60}).Draw(t, "linger")
 	if c.Kind == "grammar" && c.SSH == nil && rapid.IntRange(0, 2).Draw(t, "poisoned") == 0 {
 		// history: an odd client first, then ordinary ones
 		tr := svc.GenTraffic(t, c.Service)
@@ -400,7 +404,7 @@ func genConn(t *rapid.T) connCase {
 			if rapid.Bool().Draw(t, "poisonmut") {
 				units, note = svc.Mutate(t, units)
 			}
-			c.Poison = &connCase{Service: c.Service, UDP: c.UDP, Units: hexUnits(units), Seg: "units", End: "close", Kind: "poison", Note: note}
+			c.Poison = &connCase{Service: c.Service, UDP: c.UDP, Units: hexUnits(units), Seg: "units", End: "close", Kind: "poison", Note: note, LingerMs: rapid.SampledFrom([]int{0, 60}).Draw(t, "poison-linger")}
 			c.Kind = "after-odd-client"
 		}
 	}
@@ -452,7 +456,7 @@ func TestRelease(t *testing.T) {
 
 type silenceCase struct {
 	Service string `json:"service"`
-	Stage   string `json:"stage"` // nothing | partial | after-first-unit | mid-dialogue
+	Stage   string `json:"stage"` // nothing | partial | after-first-unit | after-unit | mid-dialogue
 	Sent    string `json:"sent_hex"`
 }
 
@@ -467,7 +471,7 @@ func TestSilence(t *testing.T) {
 	if i, _ := r.Shard(); i != 0 && !replay {
 		return // one batch per run is enough: the wait dominates
 	}
-	r.Rule("silence at every protocol stage (before the first byte, inside the first unit, after the first unit, mid-dialogue) for every TCP service, all connections of the batch opened together and left silent: each must be closed by the server within 4 idle periods (30 s each, the deadline is re-armed per read) + slack; distinct by (service, stage, bytes sent)")
+	r.Rule("silence at every protocol stage (before the first byte, inside the first unit, after every complete unit of 5 generated dialogues, inside the last unit) for every TCP service, all connections of the batch opened together and left silent: each must be closed by the server within 4 idle periods (30 s each, the deadline is re-armed per read) + slack; distinct by (service, stage, bytes sent)")
 	var cases []silenceCase
 	if replay {
 		cases = []silenceCase{sc}
@@ -481,10 +485,19 @@ func TestSilence(t *testing.T) {
 					continue
 				}
 				out = append(out, silenceCase{s, "nothing", ""})
-				for k := 0; k < 2; k++ {
+				for k := 0; k < 5; k++ {
 					tr := svc.GenTraffic(t, s)
 					if tr.UDP || len(tr.Units) == 0 {
 						continue
+					}
+					// silence after every complete unit of the dialogue (the server may be
+					// the one talking by then: vnc frames, banners, prompts)
+					var pre []byte
+					for i, u := range tr.Units {
+						pre = append(pre, u...)
+						if i > 0 {
+							out = append(out, silenceCase{s, "after-unit", vlib.Hex(pre)})
+						}
 					}
 					u0 := tr.Units[0]
 					if len(u0) > 1 {
